@@ -128,6 +128,26 @@ func scalarSources(v ssa.Value, depth int) []fieldSrc {
 		case *ssa.BinOp:
 			out = append(out, fieldSrc{"computed " + x.Op.String(), x.Pos()})
 		case *ssa.Call:
+			// a defensive copy lists the same values: append([]T(nil), src...) / append([]T{}, src...)
+			if bi, ok := x.Common().Value.(*ssa.Builtin); ok && bi.Name() == "append" && len(x.Common().Args) == 2 {
+				empty := false
+				switch b := vecBase(x.Common().Args[0]).(type) {
+				case *ssa.Const:
+					empty = b.IsNil()
+				case *ssa.Alloc:
+					if at, ok := b.Type().Underlying().(*types.Pointer).Elem().Underlying().(*types.Array); ok && at.Len() == 0 {
+						empty = true
+					}
+				case *ssa.MakeSlice:
+					if c, isC := constInt(b.Len); isC && c == 0 {
+						empty = true
+					}
+				}
+				if empty {
+					out = append(out, scalarSources(x.Common().Args[1], depth)...)
+					continue
+				}
+			}
 			name := callName(x.Common())
 			if f := x.Common().StaticCallee(); f != nil && fnPkg(f) != nil {
 				name = fnPkg(f).Name() + "." + f.Name()
